@@ -1190,7 +1190,7 @@ class RTCSctpTransport(AsyncIOEventEmitter):
         # a TSN this far ahead of the cumulative TSN cannot be described by a
         # 16-bit gap block in the SACK, let the peer retransmit it later
         if (chunk.tsn - self._last_received_tsn) % SCTP_TSN_MODULO in range(
-            65536, SCTP_TSN_MODULO // 2
+            65536, SCTP_TSN_MODULO // 2 + 1
         ):
             return
 
